@@ -5,7 +5,7 @@
     node:     G ── b1 ── d2          (d2's coinbase pays "a3", issued in mid-history)
                     └─── c2          (sibling of d2, pays "a2")
     history:  extend b1 · newAddr w1 ("a3") · CRASH (b1 queued, wallet at G) · create w2 · extend d2 · handle ·
-              handle · reorgTo 1 [c2] · CRASH (c2 queued, wallet on the stale d2 at the SAME height: finding F2) ·
+              handle · recvTx u1 (unconfirmed, spends the wallet's coinbase of b1) · reorgTo 1 [c2] · CRASH (c2 queued, wallet on the stale d2 at the SAME height: finding F2) ·
               handle
 -/
 import MW.Lemmas.Deepen3Crash
@@ -27,8 +27,11 @@ def exX0 : SysQ :=
 
 def exK0 : Skel := { chain := [hxG], ks := exKs0, hist := [[hxG]] }
 
+/-- an unconfirmed transaction spending the wallet's coinbase of b1, paying the wallet -/
+def exU1 : Tx := ⟨"u1", false, [⟨"c1", 0, 0⟩], [⟨"a2", 50, .std⟩]⟩
+
 def exEvs : List EvQ :=
-  [.extend hxB1, .newAddr "w1" false, .crash, .create "w2", .extend ixD2, .handle, .handle,
+  [.extend hxB1, .newAddr "w1" false, .crash, .create "w2", .extend ixD2, .handle, .handle, .recvTx exU1,
    .reorgTo 1 [hxC2], .crash, .handle]
 
 theorem exKnown_cases {id : BlkId} {x : Block} (h : AMap.get exSt.known id = some x) :
@@ -120,7 +123,7 @@ theorem exRunOK : RunOK exSt hxG exK0 exEvs := by
   · have hk : skStep exSt (skStep exSt (skStep exSt (skStep exSt exK0 (.extend hxB1)) (.newAddr "w1" false)) .crash)
         (.create "w2") = { chain := [hxG, hxB1], ks := exKs2, hist := [[hxG], [hxG, hxB1]] } := exSkel1
     rw [hk]
-    exact ⟨exOK exKs2 ixD2 (Or.inl rfl) exValid2d, trivial, trivial,
+    exact ⟨exOK exKs2 ixD2 (Or.inl rfl) exValid2d, trivial, trivial, trivial,
       ⟨by simp, exOK exKs2 hxC2 (Or.inr rfl) exValid2c⟩, trivial, trivial, trivial⟩
 
 
@@ -147,7 +150,8 @@ example : (runQ exSt 1 false exX0 (exEvs.take 5)).queue = [hxB1, ixD2] ∧ (runQ
 example : (runQ exSt 1 true exX0 exEvs).V.led.best = ⟨2, "c2"⟩ ∧ (runQ exSt 1 true exX0 exEvs).P.ks = exKs2 ∧
     AMap.get (runQ exSt 1 true exX0 exEvs).P.led.balance "w1" = some 100 ∧
     AMap.get (runQ exSt 1 false exX0 exEvs).P.led.balance "w1" = some 100 ∧
-    AMap.get (runQ exSt 1 true exX0 exEvs).P.led.balance "w2" = some 0 := by
+    AMap.get (runQ exSt 1 true exX0 exEvs).P.led.balance "w2" = some 0 ∧
+    (runQ exSt 1 true exX0 exEvs).P.led.pending.map (·.1) = ["u1"] := by
   decide
 
 end MW.Lemmas.Deepen3
